@@ -233,13 +233,14 @@ theorem LTok.add_item {mx d : Nat} {token : Json} (h : LTok mx d token) (childre
     exact (preSeq_iff _ _ _ _ _).2 hcs
   have hle : d + 1 ≤ mx := hd
   simp [preTok, preView, tok, Json.get?, List.lookup, Json.s, isItemCtx, itemCtx, optHas, optArr, optList, attrsOkB,
-    hle, hrec]
+    attrsOkT, attrsShape, hle, hrec]
 
 /-- the attributes of a list token -/
 def listAttrsB (a : Json) : Bool :=
   (match a with | .obj _ => true | _ => false) &&
   (match a.get? "ordered" with | some (.bool _) => true | _ => false) && isIntJ (a.get? "depth") &&
-  (match a.get? "start" with | none => true | some (.num _) => true | _ => false)
+  (match a.get? "start" with | none => true | some (.num _) => true | _ => false) &&
+  attrsShape "list" (some a)
 
 theorem lTok_init (mx d : Nat) (hd : d < mx) (attrs : Json) (ha : listAttrsB attrs = true) (b : Json) :
     LTok mx d (tok "list" [("children", .arr []), ("tight", .bool true), ("bullet", b), ("attrs", attrs)]) := by
@@ -250,9 +251,10 @@ theorem lTok_init (mx d : Nat) (hd : d < mx) (attrs : Json) (ha : listAttrsB att
   have hle1 : d + 1 ≤ mx := hd
   unfold listAttrsB at ha
   simp only [Bool.and_eq_true] at ha
-  obtain ⟨⟨⟨a1, a2⟩, a3⟩, a4⟩ := ha
-  have a1' : attrsOkB (some attrs) = true := by
-    unfold attrsOkB
+  obtain ⟨⟨⟨⟨a1, a2⟩, a3⟩, a4⟩, a5⟩ := ha
+  have a1' : attrsOkT "list" (some attrs) = true := by
+    unfold attrsOkT attrsOkB
+    rw [a5, Bool.and_true]
     split at a1
     · rfl
     · cases a1
@@ -470,7 +472,7 @@ theorem parseList_ok (cfg : MdCfg) (pm : ParseMethod) (hpm : PMGrammar cfg pm)
         · exact Sat.pure (Keeps.append hk4 (by rw [← hk4.2.1]; exact htk3'))
       clear_value jp2
       have hattrs0 : listAttrsB attrs = true := by
-        simp [attrs, listAttrsB, Json.get?, List.lookup, isIntJ]
+        simp [attrs, listAttrsB, Json.get?, List.lookup, isIntJ, attrsShape, plainJ]
       split
       · extract_lets +onlyGivenNames jp3
         have hjp3 : ∀ start, Sat (GPost cfg.maxNested st) (jp3 start) := by
@@ -486,7 +488,7 @@ theorem parseList_ok (cfg : MdCfg) (pm : ParseMethod) (hpm : PMGrammar cfg pm)
               exact hjp2 _ (Keeps.trans hk g1) hattrs0
             · simp only [pure_bind]
               refine hjp2 _ (Keeps.trans hk g1) ?_
-              simp [attrs, listAttrsB, Json.get?, Json.set, List.lookup, isIntJ]
+              simp [attrs, listAttrsB, Json.get?, Json.set, List.lookup, isIntJ, attrsShape, plainJ]
           · simp only [pure_bind]
             exact hjp2 _ hk hattrs0
         clear_value jp3
